@@ -71,23 +71,21 @@ def run_c08(prop, tier, seed, replay):
                 if r["op"] == "merge" and r["hit"]:
                     bad = copy.deepcopy(r)
                     bad["out"]["dur"] += 2
+                    traces.append([copy.deepcopy(r)])      # control
                     traces.append([bad])
                     ncan += 1
                     break
     acc, rej, stats = tlc.judge("AwHeartbeatTrace", JUDGE, traces, tag="judge_c08")
     rep.add_judge_stats(stats)
     nreal = len(parts)
-    for ci in range(nreal, nreal + ncan):
-        if ci in acc:
-            raise tlc.TLCFailure("canary (merged duration corrupted) accepted by the judge")
-    rep.notes["canaries_rejected"] = ncan
+    rep.notes["canaries_rejected"] = tlc.check_canary_pairs(acc, nreal, ncan, "merged duration corrupted")
     nmerge = sum(1 for c in cases if c[0] == "merge")
     rep.cov.update(traces_validated_against_impl=nreal, evaluations=len(cases), distinct_nontrivial=len({repr(c) for c in cases}),
                    rule="all pairs on timestamps {0..3} x durations {-1,0,1,2} x equal/different data x pulsetime {0,1/2,1,2} ticks (%d pairs); all lists of <= %d events on a small grid "
                         "and random lists of <= 5 events in any order; each call recorded (result, second application) and judged; distinct by input" % (nmerge, 3 if q else 4),
                    exhaustive=False)
     rep.sample(traces[0][:3])
-    rep.sample([r for r in traces[-ncan - 1] if r["op"] == "reduce"][:2])
+    rep.sample([r for r in traces[len(parts) - 1] if r["op"] == "reduce"][:2])
     for i in sorted(rej):
         if i >= nreal:
             continue
